@@ -443,6 +443,14 @@ def h_cleanup_runs(sx):
         if end_marker not in tl:
             continue
         i = tl.index(end_marker) + 1
+        # the element's own after_tag hooks still run inside its scope: they come before its cleanups
+        k_ = i
+        tag_pos, clean_pos = [], []
+        while k_ < len(tl) and ((tl[k_][0] == "hook" and tl[k_][1] == "after_tag") or (tl[k_][0] == "cleanup" and tl[k_][1] in keys)):
+            (tag_pos if tl[k_][0] == "hook" else clean_pos).append(k_)
+            k_ += 1
+        sx.check(not tag_pos or not clean_pos or max(tag_pos) < min(clean_pos), "C13.run.after-tag-hooks-inside-the-scope",
+                 detail=lambda m, owner=owner: dict(det(m), owner=owner))
         while i < len(tl) and tl[i][0] == "hook" and tl[i][1] == "after_tag":
             i += 1
         seg = [t[1] for t in tl[i:i + len(keys)] if t[0] == "cleanup"]
@@ -590,7 +598,7 @@ def jobs(tier, seed):
         js.append(Job("ops.scoped.%s" % name, "props.c13:h_ctx_ops", {"n": len(prefix) + (3 if tier == "quick" else 4), "prefix": prefix, "ops": scoped},
                       reach=REACH_OPS, min_paths=50, cost=2000, validate=40, max_paths=400000, closure=False))
     runs = {
-        "sc-layer": ([F([S(2), S(1)])], {"out_dom": {"*": [5, 6]}}),
+        "sc-layer": ([F([S(2, tags=["t1", "t2"]), S(1)])], {"out_dom": {"*": [5, 6]}}),
         "feature-layer": ([F([S(1), R([S(1)])])], {"out_dom": {"*": [6, 6]}, "cleanup_layer": "feature"}),
         "testrun-layer": ([F([S(1)]), F([S(1)])], {"out_dom": {"*": [6, 6]}, "cleanup_layer": "testrun"}),
         "hook-skip": ([F([S(1), S(1)])], {"out_dom": {"*": [6, 6]}, "hook_skip_scenario": True, "undef": False}),
